@@ -163,6 +163,10 @@ def r2_r5(ctx, facts):
                         if isinstance(x, tuple) and x[0] == "bin" and x[1] == "BitAnd" and ("const", mask) in (x[2], x[3]) and y == ("const", val):
                             if cmp_truth(st, "Eq", x, y) == 1:
                                 return True
+                        # a single-bit mask: `(v & bit) != 0` says the same as `(v & bit) == bit`
+                        if isinstance(x, tuple) and x[0] == "bin" and x[1] == "BitAnd" and ("const", mask) in (x[2], x[3]) and y == ("const", 0) and mask == val and mask & (mask - 1) == 0:
+                            if cmp_truth(st, "Eq", x, y) == 0 or cmp_truth(st, "Ne", x, y) == 1 or cmp_truth(st, "Gt", x, y) == 1:
+                                return True
             return False
         r5.instance("version-is-exactly-4", bool(sts) and all(masked_eq(st, 127, 4) for st in sts),
                     "a frame header passes validation where `(version & 0x7f) == 4` is not known (e.g. only `<= 4` is tested): a v3 / garbage header is taken for a response, the connection is not torn down, "
